@@ -86,7 +86,7 @@ def _deliver(enc, cb):
 
 def _setup(case):
     S.CTX.scenario = {"script": [[] for _ in range(case["nid"])] + [case["rules"]], "reuse_commands": bool(case.get("reuse")),
-                      "host_plugin": case.get("host_plugin")}
+                      "host_plugin": case.get("host_plugin"), "readback": bool(case.get("readback"))}
     S.CTX.trace = []
 
 
@@ -296,7 +296,7 @@ def mon_C14(case, lines):
         body, _, outs = line.partition(";")
         cons = [x.strip() for x in body.split("|")][1:]
         for x in cons:
-            if x.startswith("track") and "altered:" in x:
+            if x.startswith("track") and "altered:" in x and not case.get("readback"):   # (read-back sessions track values of their own)
                 v.append("C14: callback %d (%s): a tracked value came back altered in the returned request: %s" % (i, cb["kind"], x))
         fwd = [x for x in cons if not x.startswith("track")]
         want = [x for x in py[i] if not x.startswith("cancel")]
